@@ -211,7 +211,12 @@ def check_call(rec, coll, case, p, s, call, tag="collocate", datasets=None):
     L1, L2 = (case["layout2"], case["layout1"]) if swapped else (case["layout1"], case["layout2"])
     start_ns, end_ns = call.get("start_ns"), call.get("end_ns")
     mi_ns = None if call.get("spatial_only") else g["mi_ns"]
-    must, may, info = M.brute(P, S, mi_ns, g["r_km"], start_ns, end_ns)
+    r_km = g["r_km"]
+    if call.get("zero") == "mi":        # a threshold of exactly zero is a threshold: no |dt| is smaller
+        mi_ns = 0
+    must, may, info = M.brute(P, S, mi_ns, r_km, start_ns, end_ns)
+    if call.get("zero"):
+        rec.count("collocate.zero_threshold_calls")
     if datasets is not None:
         dsP, dsS = datasets  # the caller keeps (and updates in place) its own dataset objects
     else:
@@ -234,6 +239,17 @@ def check_call(rec, coll, case, p, s, call, tag="collocate", datasets=None):
         rec.count("collocate.swapped")
     if P["time"].size * S["time"].size > 1000000:
         rec.count("collocate.binned_path")
+    if call.get("failed_first"):
+        # call history: the same request fails first (a leaf size of 0 is refused while the search tree is
+        # being built) and is then repeated with valid options on the same object
+        rec.count("history.failed_build_then_retry")
+        try:
+            np.random.seed(call.get("npseed", 0))
+            coll.collocate(a1, a2, **dict(kw, leaf_size=0))
+            rec.count("history.failed_build_did_not_fail")
+        except Exception:
+            pass
+        np.random.seed(call.get("npseed", 0))
     snap = [(d, {v: d[v].values.copy() for v in d.variables}) for d in (dsP, dsS)]
     try:
         res = coll.collocate(a1, a2, **kw)
@@ -443,6 +459,8 @@ def run_history(rec, rng, case):
             _, ss = M.gen_case(g2)
             pp = p0
             call = make_call(rng, case, pp, ss, bigger=True)
+        if step in ("perturb", "perturb-secondary") or call.get("bigger"):
+            call["failed_first"] = case["gen"]["seed"] % 2 == 0
         call["step"] = step
         rec.count("history.calls")
         check_call(rec, coll, dict(case, history=steps), pp, ss, call, tag="history")
@@ -462,6 +480,11 @@ def run_single(rec, rng, case):
             call.update(make_call(rng, case, p, s))
         check_call(rec, Collocator(threads=case.get("threads")) if k % 2 else coll, case, p, s, call)
     check_call(rec, Collocator(threads=case.get("threads")), case, p, s, make_call(rng, case, p, s, swap=True))
+    if p["time"].size * s["time"].size <= 40000 and case["gen"]["seed"] % 3 == 1:
+        k = case["gen"]["seed"] // 3
+        # (a zero max_distance is outside the domain: GeoIndex.query refuses it with ValueError)
+        zc = dict(base, mi=[0, "0 s", "0 min", "0 h"][k % 4], zero="mi")
+        check_call(rec, Collocator(threads=case.get("threads")), case, p, s, zc)
     if p["time"].size * s["time"].size <= 40000:
         # spatial-only search (max_interval=None)
         rec.count("collocate.spatial_only")
